@@ -35,6 +35,7 @@ def instances(tier, seed):
     add("atoms:CH->CF:M2:replace_all", pattern='CH->CF', N=5, M=2, replace_all=True, cost=20)
     add("atoms:CCH->CCF-retyped:M1:common-atom-re-typed-in-place", pattern='CCH->CCF-retyped', N=4, M=1, cost=10)
     add("atoms:CH->CF-common-atom-2e-7-apart:M2", pattern='CH->CF-common-atom-2e-7-apart', N=5, M=2, cost=20)
+    add("atoms:CH->CH-moved-0.002A:M1", pattern='CH->CH-moved-0.002A', N=3, M=1, cost=5)
     add("atoms:CH->CH-moved:M1", pattern='CH->CH-moved', N=3, M=1, cost=5)
     add("atoms:CHH->CHH:M1", pattern='CHH->CHH', N=4, M=1, cost=10)
     add("atoms:H->F:M3:fraction", pattern='H->F', N=4, M=3, fraction='sym', cost=30)
